@@ -36,8 +36,16 @@ def run (inp obs : List String) : Verdict :=
   let preOut := (listing pre).filter fun e => !under t e.1
   let postOut := oList.filter fun e => !under t e.1
   let unsafeKey := f.data.items.any (fun kc => !safeRel kc.1) || f.images.items.any (fun kc => !safeRel kc.1)
-  let unsafeGlif := f.layers.any fun l => !safeRel (Path.parse l.dir) || l.entries.any fun e => !safeRel (Path.parse e.file)
-  let feats := (if unsafeGlif then ["glif-path-dotdot"] else []) ++ (if unsafeKey then ["store-key-dotdot"] else [])
+  let unsafeGlif := f.layers.any fun l => l.entries.any fun e => !safeRel (Path.parse e.file)
+  -- a layer directory is a name norad assigned (C07: one normal component) or, for a loaded font, the LAST
+  -- component of the `layercontents.plist` entry (`layer.rs` `file_name()`): never anything else
+  let badLayerDir := f.layers.any fun l =>
+    match (Path.parse l.dir).comps with
+    | [.normal _] => (Path.parse l.dir).abs
+    | _ => true
+  let feats := (if unsafeGlif then ["glif-path-dotdot"] else []) ++ (if unsafeKey then ["store-key-dotdot"] else []) ++
+    (if badLayerDir then ["layer-dir"] else [])
+  let s0 := if badLayerDir then ["layer-dir-not-single-component"] else []
   let s1 := if preOut == postOut then [] else
     ["frame" ++ (if feats.isEmpty then "" else ":" ++ ",".intercalate feats)]
   let expected := ((expectedPaths f t).map fun e => (pathStr e.1, e.2)) |>.foldl
@@ -55,7 +63,7 @@ def run (inp obs : List String) : Verdict :=
     (if safePaths f then ["safe"] else ["unsafe"]) ++
     (if field inp "pre" ≠ "0" || field inp "craft" ≠ "0" then ["nt"] else [])
   { agree := okClass && okTree,
-    spec := s1 ++ s2 ++ s3,
+    spec := s0 ++ s1 ++ s2 ++ s3,
     tags := tags,
     model := if okClass && okTree then resClass mr else
       s!"model-res={resClass mr} impl-res={obsClass r} tree: {if okTree then "same" else firstDiff mList oList}" }
